@@ -56,3 +56,47 @@ SPECS["C17"] = (
   ("srtp_dealloc returns everything", "HeapProofs.v", "session_dealloc_releases"),
   ("any API sequence, any failure point: after srtp_dealloc nothing obtained by the library remains allocated", "HeapProofs.v", "no_leak_after_dealloc")],
  "")
+SPECS["C18"] = (
+ "   C18: crypto-kernel primitives equal their standards for all lengths and chunkings.  The theorems are about the models of the C\n"
+ "   state machines (Icm.v, Sha1Model.v, HmacModel.v, EqualModel.v, BitvecModel.v), instantiated with the Gallina AES / SHA-1\n"
+ "   compression functions; aes.c and the SHA-1 rounds themselves are compared, not proved (see evidence).",
+ "From Srtp Require Import Util Constants Rdb Rdbx Icm IcmProofs Sha1Model Sha1Proofs HmacModel HmacProofs EqualModel EqualProofs BitvecModel BitvecProofs.\nFrom Srtp.Crypto Require Import AES SHA1 HMAC.",
+ [("one srtp_aes_icm_encrypt call from any reachable state = data xor the RFC 3711 counter-mode keystream at that position", "IcmProofs.v", "aes_icm_encrypt_ok"),
+  ("any split of the data across encrypt calls gives the same status, state and bytes as one call", "IcmProofs.v", "aes_icm_chunking_independent"),
+  ("per-IV limit: with the block counter starting at 0 (as in SRTP) a call is refused exactly when it would pass octet 65535*16; nothing is output, the state is kept", "IcmProofs.v", "aes_icm_terminus_srtp"),
+  ("srtp_cipher_set_iv + one srtp_cipher_encrypt as srtp.c uses them", "IcmProofs.v", "cipher_encrypt_after_start"),
+  ("SHA-1 buffering and in-line padding (one- and two-block cases, 32-bit bit counter) = FIPS 180-4 for every chunking, every length < 2^29", "Sha1Proofs.v", "sha1m_digest_correct"),
+  ("HMAC (ipad/opad, init/start/update/compute, truncation) = RFC 2104 for keys up to 20 octets, every chunking", "HmacProofs.v", "hmac_model_correct"),
+  ("constant-time compare, SSE2 schedule 32/16/8/1: equal exactly when the strings are equal", "EqualProofs.v", "oct_equal_iff", "N_scope"),
+  ("portable schedule 8/4/1", "EqualProofs.v", "oct_equal_portable_iff", "N_scope"),
+  ("SIMD and portable builds agree", "EqualProofs.v", "oct_equal_agree", "N_scope"),
+  ("bitvector_left_shift (word loop, any length, any shift) is a right shift of the packed bit window", "BitvecProofs.v", "bv_left_shift_spec", "N_scope"),
+  ("v128_left_shift", "BitvecProofs.v", "v128_left_shift_spec", "N_scope"),
+  ("... which is what Rdb.v / Rdbx.v use in place of the word loops", "BitvecProofs.v", "rdb_v128_shift_justified", "N_scope"),
+  ("", "BitvecProofs.v", "rdbx_shift_justified", "N_scope")],
+ "")
+SPECS["C10"] = (
+ "   C10: memory safety for arbitrary packets under every accepted configuration.  b_oob is the model's 'an access outside\n"
+ "   [in,in+len) / [out,out+*out_len) happened' flag (World.v: rd_src / rd_dst / wr_dst); size_ok z := 0 <= z < 2^63.\n"
+ "   After fix 0773c0d the theorem for srtp_unprotect needs no side condition.",
+ "From Srtp Require Import Util Constants KeyLimit Rdb Rdbx Icm World Stream Rtp Rtcp Session EnvelopeProofs WfProofs BoundsRtcp BoundsRtp.",
+ [("an installed policy's tag lengths fit tmp_tag[16], its MKI size is 0 or 1..128", "EnvelopeProofs.v", "valid_policy_envelope"),
+  ("key derivation never writes beyond tmp_key[256]", "EnvelopeProofs.v", "derive_keys_no_overflow"),
+  ("every stream the library builds is well-formed (tag / MKI sizes within the envelope)", "WfProofs.v", "stream_init_returns_wf"),
+  ("... and so is every clone", "WfProofs.v", "stream_clone_wf"),
+  ("srtp_protect: no access outside the buffers, whatever the bytes, lengths, capacity and mode", "BoundsRtp.v", "protect_no_oob"),
+  ("srtp_unprotect", "BoundsRtp.v", "unprotect_no_oob"),
+  ("srtp_protect_rtcp", "BoundsRtcp.v", "protect_rtcp_no_oob"),
+  ("srtp_unprotect_rtcp", "BoundsRtcp.v", "unprotect_rtcp_no_oob")],
+ "")
+SPECS["C11"] = (
+ "   C11: length contract.  pkt_stream / sender_key / receiver_key (LengthProofs.v) recompute which stream and key a packet is processed with.",
+ "From Srtp Require Import Util Constants KeyLimit Rdb Rdbx Icm World Stream Rtp Rtcp Session EnvelopeProofs WfProofs BoundsRtcp LengthProofs.",
+ [("trailer of any accepted policy <= SRTP_MAX_TRAILER_LEN (144) / SRTP_MAX_SRTCP_TRAILER_LEN (148)", "EnvelopeProofs.v", "trailer_fits"),
+  ("srtp_protect: output length = input + MKI + tag, and it fits the capacity", "LengthProofs.v", "protect_length"),
+  ("srtp_protect refuses a capacity below that", "LengthProofs.v", "protect_small_buffer_refused"),
+  ("srtp_unprotect: output length = input - MKI - tag, within capacity", "LengthProofs.v", "unprotect_length"),
+  ("SRTCP (+4 octets of trailer)", "LengthProofs.v", "protect_rtcp_length"),
+  ("", "LengthProofs.v", "protect_rtcp_small_buffer_refused"),
+  ("", "LengthProofs.v", "unprotect_rtcp_length")],
+ "")
